@@ -249,6 +249,7 @@ func TestC12(t *testing.T) {
 		}
 		rec.Sample("rook", Case{Kind: "rook", Sq: 27, Occ: 0x0008000000080000})
 		rec.Sample("between", Case{Kind: "between", Sq: 0, Sq2: 63})
+		rec.FullyExhaustive()
 		rec.Exhaustive("64 squares x all subsets of the relevant occupancy (rook 102400, bishop 5248) x outside fillings; all leaper squares; all pawn singletons x colours; all 4096 square pairs")
 	}, func(check string, raw json.RawMessage) error {
 		var c Case
